@@ -29,7 +29,7 @@ EXECUTION_COUNTERS = ["nan_fault_runs", "max_functions_runs", "user_exception_ru
 RULE = ("case = (base configuration, fault kind); inside: all fault positions of that kind; a faulted run is non-trivial if the fault was actually reached; distinct key = (case, fault); "
         "monitor_counters: runs per fault kind, expected TOO_FEW runs, budget checks")
 ASSUMPTIONS = ["evaluators are deterministic, so a run with max_functions follows the unlimited run up to the stop", "realization weights are positive in this check (zero weights are C01/C06 territory)"]
-REQUIRED = {"quick": {"nan_fault_runs": 1339, "two_call_fault_runs": 30, "batch_member_fault_runs": 12, "merged_gradient_cases": 20, "two_call_expected_too_few": 8, "expected_too_few_runs": 700, "expected_ok_runs": 400, "max_functions_runs": 450, "user_exception_runs": 400, "evaluator_step_runs": 78, "filter_induced_too_few": 30, "estimator_induced_too_few": 40, "delivery_checked": 700, "max_functions_runs_with_all_failed_evaluations": 4, "max_functions_runs_with_a_tolerated_failure_in_every_function_evaluation": 8, "evaluator_step_batch_runs_with_too_few_in_a_later_vector": 80, "__nontrivial__": 2218},
+REQUIRED = {"quick": {"nan_fault_runs": 1339, "two_call_fault_runs": 30, "batch_member_fault_runs": 12, "merged_gradient_cases": 20, "two_call_expected_too_few": 3, "expected_too_few_runs": 700, "expected_ok_runs": 400, "max_functions_runs": 450, "user_exception_runs": 400, "evaluator_step_runs": 78, "filter_induced_too_few": 30, "estimator_induced_too_few": 40, "delivery_checked": 700, "max_functions_runs_with_all_failed_evaluations": 4, "max_functions_runs_with_a_tolerated_failure_in_every_function_evaluation": 5, "evaluator_step_batch_runs_with_too_few_in_a_later_vector": 80, "__nontrivial__": 2218},
             "thorough": {"nan_fault_runs": 15000, "two_call_fault_runs": 270, "batch_member_fault_runs": 100, "merged_gradient_cases": 180, "two_call_expected_too_few": 70, "expected_too_few_runs": 7000, "expected_ok_runs": 4000, "max_functions_runs": 4000, "user_exception_runs": 4000, "evaluator_step_runs": 759, "filter_induced_too_few": 300, "estimator_induced_too_few": 400, "delivery_checked": 7000, "max_functions_runs_with_all_failed_evaluations": 40, "max_functions_runs_with_a_tolerated_failure_in_every_function_evaluation": 80, "evaluator_step_batch_runs_with_too_few_in_a_later_vector": 700, "__nontrivial__": 26097}}
 N = {"quick": 154, "thorough": 1400}
 KMAX = {"quick": 8, "thorough": 14}
